@@ -137,8 +137,10 @@ fn run_f64(k: Kind, xs: &[f64], out: &mut TrialOut) {
             out.count("trials_ended_by_panic_of_code_under_test(C15)", 1);
             return;
         };
-        let (g, l) = ow::gains_losses(&xq, t, n);
-        let gl = (g + l).f();
+        let gl = crate::xq::scoped(|| {
+            let (g, l) = ow::gains_losses(&xq, t, n);
+            (g + l).f()
+        });
         let env = 64.0 * f64::EPSILON * (t + 1) as f64 * big;
         if let (Some(a), Ex::Val(e)) = (got, refs[t]) {
             if !(gl > 1e3 * env) {
